@@ -86,7 +86,11 @@ func verifyFunction(P *Program, db *ContractDB, fn *ssa.Function, c *Contract, v
 	e.safeTags = c.SafeTags
 	e.recvIface = vo.recvIface
 	e.started = time.Now()
-	e.wallBudget = 150 * time.Second
+	// 150 s with the quick tier's 5 s limit per query, scaled with the limit (thorough: 30 s)
+	e.wallBudget = time.Duration(30*vo.timeoutMs) * time.Millisecond
+	if e.wallBudget < 150*time.Second {
+		e.wallBudget = 150 * time.Second
+	}
 	if os.Getenv("GOVC_TRACE") != "" {
 		fmt.Fprintf(os.Stderr, "VERIFY %s\n", shortName(fn))
 	}
